@@ -234,7 +234,44 @@ void trace_dim() {
   PAIR(DPK1_DF, DS_DEGL);
 }
 
+// ---- 3D only: the two converters that first turn the Cauchy stress into the second Piola-Kirchhoff stress
+// (a rational function of F) are also traced with that stress as a fresh input ("core" units); checks/C23.py
+// verifies that the real converter is structurally core o convertCauchyStressToSecondPiolaKirchhoffStress.
+void trace_cores() {
+  constexpr unsigned short N = 3u;
+  {
+    // DTAU_DF <- DS_DF: computePushForwardDerivative(Kr, Ks, sk2, F1) is the real function
+    Unit u("N3_DTAU_DF__DS_DF_core");
+    t2tost2<N, Sym> K;
+    fill_op(K, 6, 9);
+    stensor<N, Sym> S;
+    verif::fill_inputs(S, "p", 6);
+    tensor<N, Sym> F;
+    verif::fill_inputs(F, "g", 9);
+    t2tost2<N, Sym> r;
+    computePushForwardDerivative(r, K, S, F);
+    verif::outputs2("r", r, 6, 9);
+  }
+  {
+    // DPK1_DF <- DS_DEGL: body of convertSecondPiolaKirchhoffStressDerivativeToFirstPiolaKirchoffStressDerivative
+    // (ConvertToPK1Derivative.ixx) once the second Piola-Kirchhoff stress is known
+    Unit u("N3_DPK1_DF__DS_DEGL_core");
+    st2tost2<N, Sym> dS;
+    fill_op(dS, 6, 6);
+    stensor<N, Sym> Sst;
+    verif::fill_inputs(Sst, "p", 6);
+    tensor<N, Sym> F;
+    verif::fill_inputs(F, "g", 9);
+    const auto dE_dF = eval(t2tost2<N, Sym>::dCdF(F) / 2);
+    const auto dS_dF = t2tot2<N, Sym>{dS * dE_dF};
+    const auto S = unsyme(Sst);
+    const t2tot2<N, Sym> dP = t2tot2<N, Sym>::tpld(S) + t2tot2<N, Sym>::tprd(F, dS_dF);
+    verif::outputs2("r", dP, 9, 9);
+  }
+}
+
 int main() {
+  trace_cores();
   trace_dim<1u>();
   trace_dim<2u>();
   trace_dim<3u>();
